@@ -60,8 +60,8 @@ DerivedOf(n) ==
                            Ord(j, acc) == IF j > L THEN acc ELSE Ord(j + 1, IF j \in KK THEN Append(acc, j) ELSE acc)
                        IN Ord(1, <<>>)
         Mk(KK, v, base) == LET ix == Ordered(KK) IN
-                           [j \in 1..Len(ix) |-> Variant(full[ix[j]], v, IF j = 1 THEN (ix[1] # 1 \/ base) ELSE (ix[j] # ix[j - 1] + 1 \/ base))]
-    IN {Mk(KK, v, base) : KK \in keeps, v \in {1, 2, 3}, base \in BOOLEAN}
+                           [j \in 1..Len(ix) |-> Variant(full[ix[j]], v, IF j = 1 THEN (ix[1] # 1 \/ base # 0) ELSE (ix[j] # ix[j - 1] + 1 \/ base = 1))]
+    IN {Mk(KK, v, base) : KK \in keeps, v \in {1, 2, 3}, base \in {0, 1, 2}}
 Paths == P1 \cup S2 \cup S3 \cup UNION {DerivedOf(n) : n \in NS}
 
 XCase == [m |-> "lxpath", h |-> h, root |-> Root,
